@@ -28,6 +28,7 @@ def handle (line : String) : String :=
       | "dispatcher" => DispatcherDriver.run j
       | "randomtrip" => RandomTripDriver.run j
       | "mission" => MissionDriver.run j
+      | "missionFleet" => MissionDriver.runFleet j
       | _ => .error s!"unknown kind {kind}"
     match r with
     | .ok v => v.compress
